@@ -1,53 +1,97 @@
 # C22 -- a session is established only after the server proves its identity.
-# spec/Handshake with the scripted (adversarial) server: InvProvenIdentity, InvNoPanic, InvBadSigOutcome.
-# TLC proves them on the contract model, the deviation demo (signature failure logged, nil session
-# returned) must be caught; every terminal state (policy, mode, signature class, expected outcome) is
-# replayed: a scripted server on a real uasc server channel answers CreateSession with a signature of the
-# class, the real client's Connect runs in a child process.
+# spec/Handshake with the scripted (adversarial) server: InvProvenIdentity, InvNoSessionUnverified, InvNoPanic,
+# InvBadSigOutcome, InvBadStatusOutcome, InvCleanAfterFailure.  TLC proves them on the contract model (signature
+# class x service-result class of the CreateSession response; sequences of Connect attempts on one client value),
+# the deviation demos (failed check ignored; Good-with-subcode/Uncertain result skips the check's error; only the
+# first failed Connect cleans up) must be caught; every terminal state is replayed: a scripted server on a real
+# uasc server channel answers CreateSession with that signature and service result, the real client's Connect
+# (one or several attempts on one client value) runs in a child process.
+import random
 import vf
-from _family_f import dedupe, need
+from _family_f import dedupe, need, Background
+
+SIGNED = [(p, m) for p in ("Basic128Rsa15", "Basic256", "Basic256Sha256", "Aes128_Sha256_RsaOaep", "Aes256_Sha256_RsaPss")
+          for m in ("Sign", "SignAndEncrypt")]
 
 
 def body(run):
     q = run.quick()
     exe = [None]
-    res = run.parallel(
+    bg = Background(
         lambda: run.tlc("Handshake", "Handshake", "Handshake_mc_quick.cfg" if q else "Handshake_mc.cfg",
-                        label="contract: all invariants (scripted server included)", timeout=3000),
+                        label="contract: all invariants (scripted server: 5 signature classes x 4 service-result classes)", timeout=3000),
+        lambda: run.tlc("Handshake", "Handshake", "Handshake_mc_retry.cfg",
+                        label="contract: up to 3 Connect attempts on one client value, every signature x service result per attempt", timeout=3000),
         lambda: run.tlc("Handshake", "Handshake", "Handshake_dev_sig.cfg", expect="violation", count=False,
                         label="deviation demo: ignoring the failed signature check violates InvNoPanic"),
-        lambda: run.tlc("Handshake", "Handshake", "Handshake_gen_sig.cfg", mode="gen",
-                        label="rows: (policy, mode, signature class) -> expected client/server outcome"),
+        lambda: run.tlc("Handshake", "Handshake", "Handshake_dev_status.cfg", expect="violation", count=False,
+                        label="deviation demo: Good-with-subcode/Uncertain result drops the check's error: violates InvProvenIdentity"),
+        lambda: run.tlc("Handshake", "Handshake", "Handshake_dev_closeonce.cfg", expect="violation", count=False,
+                        label="deviation demo: only the first failed Connect cleans up: violates InvCleanAfterFailure"),
+    )
+    res = run.parallel(
+        lambda: run.tlc("Handshake", "Handshake", "Handshake_gen_sig.cfg", mode="gen", count=False,
+                        label="rows: (policy, mode, signature class, service-result class) -> allowed outcomes"),
+        lambda: run.tlc("Handshake", "Handshake", "Handshake_gen_seq.cfg", mode="gen", count=False,
+                        label="rows: sequences of up to 4 Connect attempts on one client value"),
         lambda: exe.__setitem__(0, run.go_build("handshake")),
     )
-    rows = [r for r in dedupe(res[2].rows)]
-    # the token type is irrelevant for the signature check: keep one row per (policy, mode, class)
-    seen, uniq = set(), []
-    for r in rows:
-        k = (r["pol"], r["mode"], r["sig"])
-        if k not in seen:
-            seen.add(k)
-            uniq.append(r)
-    rows = uniq
+    # one row per (policy, mode, signature class, service-result class); the token type and client key size are
+    # irrelevant here; where the specification allows two outcomes both are collected
+    groups = {}
+    for r in dedupe(res[0].rows):
+        k = (r["pol"], r["mode"], r["sig"], r["sres"])
+        g = groups.setdefault(k, {"row": r, "allowed": set()})
+        g["allowed"].add(r["expect"]["state"])
+    rows = []
+    for k in sorted(groups):
+        r = dict(groups[k]["row"])
+        r["allowed"] = sorted(groups[k]["allowed"])
+        rows.append(r)
     if q:
-        # quick: 2 old + 1 new policy x both modes x 5 classes (+ None); the policy subset rotates with the seed
+        # quick: three policies (rotating with the seed) x 2 modes x 5 classes x 4 service results (+ None)
         pols = sorted({r["pol"] for r in rows if r["pol"] != "None"})
         keep = {pols[(run.seed + i) % len(pols)] for i in (0, 2, 3)} | {"None"}
         rows = [r for r in rows if r["pol"] in keep]
-    if not rows:
+    # sequences: the model has one signed pair; the concrete (policy, mode) rotates over all signed pairs
+    seqs = [r for r in dedupe(res[1].rows) if r["ckey"] == 2048]
+    rnd = random.Random(run.seed)
+    if q:
+        by_len = {}
+        for s in seqs:
+            by_len.setdefault((len(s["tries"]), s["tries"][-1]["sig"] == "valid"), []).append(s)
+        pick = []
+        for (n, good), lst in sorted(by_len.items()):
+            lst = sorted(lst, key=lambda s: [t["sig"] for t in s["tries"]])
+            want = {1: len(lst), 2: len(lst), 3: 8, 4: 12 if good else 6}[n]
+            pick += lst if want >= len(lst) else rnd.sample(lst, want)
+        seqs = pick
+    for i, s in enumerate(seqs):
+        s["pol"], s["mode"] = SIGNED[(i + run.seed) % len(SIGNED)]
+    if not rows or not seqs:
         raise vf.Inconclusive("TLC emitted no rows")
-    run.log("TLC: %d states; %d signature rows to replay" % (run.cov["states"], len(rows)))
-    results = run.go_run(exe[0], ["-prop", "C22", "-par", "4" if q else "8"], cases=rows, timeout=3000)
-    need(results, rows, "sig")
+    run.log("%d signature rows and %d attempt sequences to replay" % (len(rows), len(seqs)))
+    results = run.go_run(exe[0], ["-prop", "C22", "-par", "6" if q else "10"], cases=rows + seqs, timeout=3000)
+    need(results, rows + seqs, "sig")
     run.absorb(results)
-    run.cov["behaviours_replayed"] = len(rows)
-    run.cov["rule"] = ("one case per TLC terminal state (policy, mode, signature class); class = that triple; the concrete "
-                       "corruption (byte/bit flipped, which other data is signed, nil vs empty) is drawn from VERIF_SEED; "
-                       "quick: three policies (rotating with the seed) x 2 modes x 5 classes + None, thorough: all 50 + None")
+    bg.join()
+    run.cov["behaviours_replayed"] = len(rows) + len(seqs)
+    run.cov["signature_rows"] = len(rows)
+    run.cov["attempt_sequences"] = len(seqs)
+    run.cov["rule"] = ("one case per TLC terminal state (policy, mode, signature class, service-result class of the "
+                       "CreateSession response) and one per sequence of up to four Connect attempts on one client value "
+                       "(every attempt a signature class; ends at the first success); class = that tuple. With a Good "
+                       "service result every member of the signature class is tried (corrupted: bit flipped / truncated / "
+                       "extended / all zero; empty: nil / zero length; otherdata: four data variants + overlapping "
+                       "CreateSession), otherwise one seeded member. quick: three policies (rotating with the seed) and "
+                       "a seeded sample of 30-odd sequences incl. all of length <= 2; thorough: all pairs, all 341 sequences")
     run.assumptions += [
         "'other key' = the right data signed with a third key pair while the response still carries the server certificate",
         "'other data' = one of: certificate without nonce, server's own certificate + nonce, certificate + fresh nonce, nonce + certificate; "
         "plus, for every (policy, mode), two overlapping CreateSession calls where the first is answered with a signature over the second request's nonce",
+        "service results: Good-with-subcode in {GoodCompletesAsynchronously, GoodOverload, GoodClamped}, Uncertain in {Uncertain, UncertainSubNormal}, "
+        "Bad in {BadInternalError, BadUnexpectedError, BadResourceUnavailable}; with a verified signature a non-zero Good/Uncertain result may be accepted or refused",
+        "after a failed attempt: State() Closed (not Connecting/Connected), SecureChannel() nil, Session() nil, no socket beyond the baseline (/proc/self/fd)",
         "a response that carries a different certificate together with a matching signature is not explored (outside the statement)",
     ]
 
